@@ -25,5 +25,8 @@ CHECK = dict(
             dict(name="pipeline-slow-reader", run="^TestVerifC01PipelineSlowReader$", quick=3, thorough=40, shards_thorough=2),
             dict(name="btd-read-buffer", run="^TestVerifC01BTDReadBuffer$", quick=0, thorough=0),
         ]),
+        dict(name="preupstream", dir="internal/dnssvc/internal/preupstream", src="C01/preupstream", runs=[
+            dict(name="metric-domains", run="^TestVerifC01PreUpstream$", quick=1500, thorough=30000, shards_thorough=3),
+        ]),
     ],
 )
